@@ -10,7 +10,7 @@ ROOT = os.path.dirname(os.path.dirname(os.path.abspath(__file__)))
 # id -> what the later rounds added to the workload (appended to the level text; DESIGN.md section 8)
 COMMON = " The same workload also runs under 19 hostile local time zones where dates are involved, in freshly started child processes under hostile locale/zone environments and four kinds of standard streams where listed in DESIGN 8, on GOARCH=386, under every build tag named in the source tree, once more with every environment variable set that the tree under test is seen to look up (names discovered at run time through the Go test log of a probe that calls every entry point; none on the pinned tree), compiled as a test binary where the tree asks whether it runs under go test (it does not on the pinned tree), and (thorough) under the race detector; a panic of the library inside any monitored call is a violation."
 EXTRA = {
-    "C01": " Also: caller buffers of many spare capacities and contents, sub-slices with guard bytes, results' spare capacity filled before later results are compared, every one-letter fmt verb, JSON/XML alternative spellings (\\u escapes, CDATA, character references, comments) in every container position, one buffer refilled with equal-length documents (refill histories), weak-checksum collision histories. AppendText/AppendBinary-style methods a tree may grow are compared with MarshalText behind nine kinds of prefix; prefixes that contain fmt directives, fmt diagnostics, template syntax or multi-byte text. A program that links this package alone (no sibling package of the library) runs a compact sweep against the reference models. Results kept by the caller are compared again after garbage collections, finalizer runs and later calls.",
+    "C01": " Also: caller buffers of many spare capacities and contents, sub-slices with guard bytes, results' spare capacity filled before later results are compared, every one-letter fmt verb, JSON/XML alternative spellings (\\u escapes, CDATA, character references, comments) in every container position, one buffer refilled with equal-length documents (refill histories), weak-checksum collision histories. AppendText/AppendBinary-style methods a tree may grow are compared with MarshalText behind nine kinds of prefix; prefixes that contain fmt directives, fmt diagnostics, template syntax or multi-byte text. A program that links this package alone (no sibling package of the library) runs a compact sweep against the reference models. Results kept by the caller are compared again after garbage collections, finalizer runs and later calls. Caller buffers with 0..19 bytes to spare, rotating over the dates, for both formats.",
     "C02": " Also: every thousands count to 2100 with the limit disabled, numbers beyond 2^32 (multi-megabyte numerals), named types with String/Error/Format methods, refill histories, every one-letter verb, a failing Formatter variable. Appender methods judged against MarshalText. A program that links this package alone (no sibling package of the library) runs a compact sweep against the reference models. Results kept by the caller are compared again after garbage collections, finalizer runs and later calls. Every numeral is also parsed back under RuleDisableEmptyAsZero. One number rendered repeatedly while DefaultFormat is switched back and forth.",
     "C03": " Also: components at every power of ten and two with neighbours, MarshalText/StringTag/every one-letter verb, decorated spellings of valid texts, named types with display methods, inputs bordering inaccessible memory pages, refill histories, a vocabulary of common words. Appender methods judged against MarshalText; refusals repeated after the caller edited the exported fields of the returned error. A program that links this package alone (no sibling package of the library) runs a compact sweep against the reference models. Results kept by the caller are compared again after garbage collections, finalizer runs and later calls. The nine two-argument helpers on every tag/plain combination of both operands.",
     "C04": " Also: marshalled documents re-indented and re-spaced before reading, texts written under each switch combination read under each other one, refused inputs of 18 kinds immediately before the round trips, decimal-structure values (digit groups of zeros and nines). A program that links this package alone (no sibling package of the library) runs a compact sweep against the reference models. 4.8 million refused inputs (over-long, malformed) before a set of round trips.",
@@ -23,7 +23,7 @@ EXTRA = {
     "C11": " Also: Feb 28/29/30 payloads of every year within +-1,000,000 and every century year within +-999,999,999; payloads decoded into receivers of every kind (zero, same date, same month-day in a leap year, neighbour). AppendBinary, if the tree has it, must return prefix ++ MarshalBinary for nine kinds of prefix x five spare capacities. Results kept by the caller are compared again after garbage collections, finalizer runs and later calls. Records placed at every offset of an 8-byte word and receivers at both alignments of a 4-byte-aligned struct; the 386 platform pass runs in the quick tier too.",
     "C12": " Also: non-JSON bytes (BOMs, comments, separators) around documents, keys colliding with value/unit under 11 cheap hash functions (offline exhaustive search, re-verified at start-up) and near-miss keys, every JSON string escape in every position, whole numbers beyond 2^53 with fraction/exponent, nesting depths to 9999, refill histories, inputs bordering inaccessible pages. Refusals repeated after the caller edited the returned error. 4,000+ random single-threaded call histories of length 24-32 that dwell on a few steps.",
     "C13": " Also: decimal-structure values (digit groups of zeros/nines under 30 heads, as byte counts and as shortened values of every unit), refused parses between renderings, caller buffers with the formatter's own output as prefix. Sizes constructed just before they are rendered (New with a non-maximal unit in three numeric kinds, text and JSON parsers), on one goroutine. A program that links this package alone (no sibling package of the library) runs a compact sweep against the reference models. Prefixes holding commas and every other separator a grouping routine may use as a placeholder.",
-    "C14": " Also: all ordered pairs of 1463 identifier lists over identifiers that rank equal but differ in length, pre-release strings sharing memory, a caller-supplied ComparePreRelease.",
+    "C14": " Also: all ordered pairs of 1463 identifier lists over identifiers that rank equal but differ in length, pre-release strings sharing memory, a caller-supplied ComparePreRelease. Latest is judged by the reference order as well as by the library's own Compare.",
     "C15": " Also: calendar-aligned bounds (first of every month x last three days of every month over 27 years x 6 spans) probed on both sides of every unit boundary, far years, probe histories, one variable passed as both bounds.",
     "C16": " Also: prefixes of every size class from 64 bytes to 70 KiB, spare capacities to 4096, nil-buffer results' capacity filled before later results are compared, formatter panics reported with the case. Prefixes containing fmt directives, fmt diagnostics ((MISSING), %!(EXTRA), template/regexp replacement syntax, multi-byte text in front of the formatter's own letters. Caller arrays outgrown by a result are compared again after hundreds of later formatting calls. 4,000+ random single-threaded call histories of length 24-32 that dwell on a few steps. Prefixes of a megabyte and more for every formatter.",
     "C17": " Also: buffers shared read-only with watcher goroutines, refill histories for all five types, hostile Scan sources (typed nil pointers, Valuers), inputs bordering inaccessible pages. The 14 generic entry points also at json.RawMessage, json.Number and sql.RawBytes; JSON documents that are almost one value; failing inputs of 250..70,000 bytes with the limits raised, printed (Error()) before the buffers are compared. The two-argument helpers at seven mixes of argument types; a string allocated at the address of a collected, parsed string of the same length. Documents with several unknown keys, repeated; for every UnmarshalJSON found at run time, objects built from the type's own field names in which a later member is mistyped.",
